@@ -63,6 +63,7 @@ type SimNode struct {
 	Puppet      bool // no Node object: events are made by the harness
 	ResetEpochs int  // number of fast-forward resets
 	StoreClosed bool
+	peersAtCrash []*peers.Peer
 	// InsertFailedStep is the first step at which this incarnation failed to
 	// insert events it received (-1: never). Used for reset nodes: C13 holds
 	// "for as long as it can insert the events it receives".
